@@ -2,17 +2,24 @@
 
 Real `glue.core.Data.compute_statistic` / `compute_histogram` (and, through headless viewer
 states, `ProfileLayerState.profile` / `HistogramLayerState.histogram`) against the Lean model
-`GlueVerif.Stats`.  All data values are small dyadic rationals (or NaN / ±inf), so minimum, maximum
-and sum are computed exactly by numpy and are compared exactly; mean, median and percentile are sent
-as the exact rational value of the returned double and compared by the Lean driver with relative
-tolerance 1e-12 against the exact `Rat`.
+`GlueVerif.Stats`.  Components are stored in every numeric dtype (float16/32/64, int8..int64,
+uint8..uint64, bool); every stored value is sent as its exact rational value, the returned doubles
+(or integers) likewise, and the Lean driver decides with `Stats.specAccept` whether a returned cell
+is an acceptable double-precision evaluation of the exact statistic of the kept values: exact where
+every partial sum is a double (all the small dyadic data), correctly rounded where one rounding
+separates the two, and otherwise within the forward error bound of a double-precision evaluation
+computed exactly from the inputs (n·2^-52·Σ|x| for a sum of n values, …) — a bound that a single or
+half precision accumulation misses by many orders of magnitude.
 """
 import gc
 import itertools
+import json
+import os
 import warnings
 from fractions import Fraction
 
-from harness.core import Family, Property, use_repo
+from harness import core
+from harness.core import Family, Property, use_repo, VERIF
 
 use_repo()
 import numpy as np  # noqa: E402
@@ -26,6 +33,25 @@ from glue.core.roi import RectangularROI  # noqa: E402
 
 BIG = 40000000
 STATS = ["minimum", "maximum", "mean", "median", "sum"]
+
+# findings: KNOWN_FINDINGS.json is assembled from props.d/ by the integrator; in a builder worktree
+# (and until then) this property's fragment is read as well.  Entries are merged by id.
+_orig_load_findings = core.load_findings
+
+
+def _load_findings(prop_id):
+    got = list(_orig_load_findings(prop_id))
+    if prop_id != "C10":
+        return got
+    try:
+        extra = json.load(open(os.path.join(VERIF, "props.d", "C10", "findings.json")))
+    except Exception:
+        extra = []
+    have = {f.get("id") for f in got}
+    return got + [f for f in extra if f.get("property") == "C10" and f.get("id") not in have]
+
+
+core.load_findings = _load_findings
 
 
 # ------------------------------------------------------------------------------------------
@@ -58,6 +84,15 @@ def enc(x):
     return ["q", int(f.numerator), int(f.denominator)]
 
 
+def enc_exact(x):
+    """exact value of any numpy / python scalar (integers are never routed through a double)"""
+    if isinstance(x, (bool, np.bool_)):
+        return int(x)
+    if isinstance(x, (int, np.integer)):
+        return int(x)
+    return enc(x)
+
+
 def qv(num, den=1):
     f = Fraction(num, den)
     return int(f.numerator) if f.denominator == 1 else ["q", int(f.numerator), int(f.denominator)]
@@ -71,12 +106,35 @@ def is_special(v):
 # building glue objects from a case
 # ------------------------------------------------------------------------------------------
 
-def make_data(sh, flat, weights=None):
-    arr = np.array([dec(v) for v in flat], dtype=float).reshape(tuple(sh))
-    kw = {"x": arr}
+DTYPES = {"f2": np.float16, "f4": np.float32, "f8": np.float64,
+          "i1": np.int8, "i2": np.int16, "i4": np.int32, "i8": np.int64,
+          "u1": np.uint8, "u2": np.uint16, "u4": np.uint32, "u8": np.uint64, "b1": np.bool_}
+ALL_DT = list(DTYPES)
+
+
+def make_array(sh, flat, dt="f8"):
+    """The component as it is stored.  Every value of a generated case is exactly representable in
+    `dt` (the Lean driver re-checks this: `DType.holds`), so the conversions below are exact."""
+    if dt[0] == "f":
+        arr = np.array([dec(v) for v in flat], dtype=np.float64)
+        if dt != "f8":
+            arr = arr.astype(DTYPES[dt])
+    else:
+        arr = np.array([int(v) for v in flat], dtype=np.int64 if dt != "u8" else np.uint64).astype(DTYPES[dt])
+    return arr.reshape(tuple(sh))
+
+
+def make_data(sh, flat, weights=None, dt="f8", wdt="f8", yflat=None):
+    kw = {"x": make_array(sh, flat, dt)}
     if weights is not None:
-        kw["w"] = np.array([dec(v) for v in weights], dtype=float).reshape(tuple(sh))
+        kw["w"] = make_array(sh, weights, wdt)
+    if yflat is not None:
+        kw["y"] = make_array(sh, yflat, "f8")
     return Data(**kw)
+
+
+def stat_dt(case):
+    return case[9] if len(case) > 9 else "f8"
 
 
 def make_sel(d, sel):
@@ -130,7 +188,10 @@ def make_axis(axis):
 
 
 def canon_result(r):
-    a = np.asarray(r, dtype=float)
+    a = np.asarray(r)
+    if a.dtype.kind in "iub":
+        return ["res", list(a.shape), [int(v) for v in a.ravel().tolist()]]
+    a = a.astype(float)     # float16 / float32 -> double is exact
     return ["res", list(a.shape), [enc(v) for v in a.ravel()]]
 
 
@@ -169,6 +230,104 @@ def fixed_data(sh, salt=0):
     return out
 
 
+# ------------------------------------------------------------------------------------------
+# storage dtypes: values that stress the precision of the *storage* format.  `anchor` = magnitudes at
+# which the format has run out of bits (2048 for float16, 2**24 for float32, 2**53 for 64-bit integers
+# seen as doubles) or is about to overflow (65504, 3.4e38, 127, 2**31-1, ...); `small` = addends that a
+# reduction carried out in the storage format would lose next to an anchor.  Every value is exactly
+# representable in its dtype; exact results stay far inside the double range, integer sums inside int64.
+# ------------------------------------------------------------------------------------------
+
+F4MAX = (2 ** 24 - 1) * 2 ** 104
+TYPED = {
+    "f2": dict(anchor=[2048, 4096, 2050, 32768, 65504, 60000, -65504, -2048, 1024],
+               small=[1, 1, 3, qv(1, 2), 2, -1, 5, qv(3, 4), qv(1, 1024), qv(1, 2 ** 24), qv(1, 2 ** 14), 7]),
+    "f4": dict(anchor=[2 ** 24, 2 ** 24 + 2, 2 ** 25, F4MAX, 15000000 * 2 ** 104, -F4MAX, 2 ** 100, 2 ** 31, -2 ** 24, 2 ** 24 - 1],
+               small=[1, 1, 3, qv(1, 2), 2, -1, 5, 100, qv(1, 1024), qv(1, 2 ** 149), qv(1, 2 ** 126), 7]),
+    "f8": dict(anchor=[2 ** 53, 2 ** 53 + 2, -2 ** 53, 2 ** 60, 2 ** 100, 2 ** 24 + 1, 2 ** 31 + 1, -2 ** 60, 1234567890123],
+               small=[1, 1, 3, qv(1, 2), 2, -1, 5, 100, qv(1, 1024), qv(1, 2 ** 60), qv(13, 4), 7]),
+    "i1": dict(anchor=[127, -128, 100, -100, 126, 64], small=[1, 1, 3, 2, -1, 0, 5, 7]),
+    "u1": dict(anchor=[255, 254, 200, 128, 100], small=[1, 1, 3, 2, 0, 5, 7]),
+    "i2": dict(anchor=[32767, -32768, 30000, 2049, -2049, 20000], small=[1, 1, 3, 2, -1, 0, 5, 7]),
+    "u2": dict(anchor=[65535, 65534, 40000, 2049, 32768], small=[1, 1, 3, 2, 0, 5, 7]),
+    "i4": dict(anchor=[2 ** 31 - 1, -2 ** 31, 2 ** 24 + 1, 2 ** 24 + 3, 2 ** 30 + 1, -(2 ** 24 + 1), 2 ** 31 - 5],
+               small=[1, 1, 3, 2, -1, 0, 5, 7, 1000]),
+    "u4": dict(anchor=[2 ** 32 - 1, 2 ** 31, 2 ** 24 + 1, 2 ** 31 + 1, 2 ** 32 - 3], small=[1, 1, 3, 2, 0, 5, 7, 1000]),
+    "i8": dict(anchor=[2 ** 53 + 1, 2 ** 53 - 1, -(2 ** 53 + 1), 2 ** 53 + 3, 2 ** 31, 2 ** 24 + 1, 2 ** 55 + 1, -2 ** 31 - 1],
+               small=[1, 1, 3, 2, -1, 0, 5, 7, 1000]),
+    "u8": dict(anchor=[2 ** 53 + 1, 2 ** 53 + 3, 2 ** 55 + 1, 2 ** 32 + 1, 2 ** 24 + 1, 2 ** 31], small=[1, 1, 3, 2, 0, 5, 7, 1000]),
+    "b1": dict(anchor=[1], small=[0, 1, 1, 0, 1]),
+}
+IS_FLOAT = {dt: dt[0] == "f" for dt in DTYPES}
+
+
+def typed_fixed(dt, sh, salt=0):
+    """deterministic stress array: an anchor at every third position, small addends elsewhere, one NaN /
+    infinity for the float dtypes"""
+    n = int(np.prod(sh))
+    t = TYPED[dt]
+    out = []
+    for i in range(n):
+        if i % 3 == 0:
+            out.append(t["anchor"][(i // 3 + salt) % len(t["anchor"])])
+        else:
+            out.append(t["small"][(i * 5 + salt) % len(t["small"])])
+    if IS_FLOAT[dt] and n >= 5:
+        out[(4 + salt) % n] = "nan" if salt % 2 == 0 else "pinf"
+    return out
+
+
+def typed_random(rng, dt, n):
+    t = TYPED[dt]
+    mode = rng.random()
+    if mode < 0.2:       # one anchor, many equal small addends (the classic absorbed-addend pattern)
+        a, b = rng.choice(t["anchor"]), rng.choice(t["small"])
+        out = [b] * n
+        out[rng.randrange(n)] = a
+    elif mode < 0.35:    # anchors only (overflow of the storage format in sums / means)
+        out = [rng.choice(t["anchor"]) for _ in range(n)]
+    else:
+        pa = rng.choice([0.15, 0.3, 0.5])
+        out = [rng.choice(t["anchor"]) if rng.random() < pa else rng.choice(t["small"]) for _ in range(n)]
+    if IS_FLOAT[dt]:
+        ps = rng.choice([0.0, 0.0, 0.1, 0.25])
+        out = [rng.choice(["nan", "nan", "pinf", "ninf"]) if rng.random() < ps else v for v in out]
+    return out
+
+
+def safe_thresholds(dt, flat):
+    """comparison constants that numpy compares exactly with a component of this dtype: representable
+    in the dtype (numpy compares a float16/float32 array with a Python float in the array's
+    precision) and, for 64-bit integers (converted to doubles for the comparison), far from 2**53"""
+    base = [0, 1, 2, 1000] if dt != "b1" else [0, 1]
+    if IS_FLOAT[dt]:
+        base += [qv(5, 2), qv(1, 2), -1]
+        base += [v for v in flat if not is_special(v)][:6]
+    else:
+        base += [qv(5, 2), qv(1, 2), -1]
+        base += [v for v in flat if abs(v) <= 2 ** 40][:6]
+    return base
+
+
+def typed_sels(dt, sh, flat):
+    nd = len(sh)
+    n = int(np.prod(sh))
+    thr = safe_thresholds(dt, flat)
+    big = thr[-1]
+    out = [None, ["gt", 1], ["le", big], ["bits"] + [i != 1 for i in range(n)],
+           ["slice"] + [[None, None, None]] * nd, ["slice", [1, None, None]]]
+    return out
+
+
+def typed_views(sh):
+    nd = len(sh)
+    out = [None, "E", ["v", ["s", None, None, None]], ["v", ["s", 0, sh[0] - 1, None]]]
+    if nd >= 2:
+        out += [["v", ["s", None, None, None], ["s", 0, 1, None]], ["v", ["s", 1, None, None], ["i", 0]],
+                ["v", ["s", None, None, 2]]]
+    return out
+
+
 def slice_items(h, rich):
     its = [["s", None, None, None], ["s", 1, None, None], ["s", 0, max(1, h - 1), None], ["s", None, None, 2],
            ["i", 0], ["i", -1]]
@@ -202,18 +361,18 @@ def axes_for(nd):
     return out
 
 
-def rand_sel(rng, sh, depth=0):
+def rand_sel(rng, sh, depth=0, thr=None):
     nd = len(sh)
     n = int(np.prod(sh))
     r = rng.random()
     if depth < 2 and r < 0.15:
         op = rng.choice(["and", "or", "xor"])
-        return [op, rand_sel(rng, sh, depth + 1), rand_sel(rng, sh, depth + 1)]
+        return [op, rand_sel(rng, sh, depth + 1, thr), rand_sel(rng, sh, depth + 1, thr)]
     if depth < 2 and r < 0.2:
-        return ["not", rand_sel(rng, sh, depth + 1)]
+        return ["not", rand_sel(rng, sh, depth + 1, thr)]
     k = rng.choice(["gt", "lt", "ge", "le", "pixrange", "pixgt", "roi", "bits", "bits1", "empty"])
     if k in ("gt", "lt", "ge", "le"):
-        return [k, rng.choice(POOL + [qv(7, 2), qv(5, 2)])]
+        return [k, rng.choice(thr if thr is not None else POOL + [qv(7, 2), qv(5, 2)])]
     if k == "pixrange":
         ax = rng.randrange(nd)
         lo = rng.choice([-1, 0, qv(1, 2), 1, qv(3, 2)])
@@ -229,7 +388,7 @@ def rand_sel(rng, sh, depth=0):
         j = rng.randrange(n)
         return ["bits"] + [i == j for i in range(n)]
     if k == "empty":
-        return ["gt", 1000]
+        return ["gt", 1000] if thr is None else ["and", ["gt", 1], ["lt", 1]]
     p = rng.choice([0.2, 0.5, 0.8])
     return ["bits"] + [rng.random() < p for _ in range(n)]
 
@@ -279,6 +438,9 @@ class StatFamily(Family):
     name = "stat"
     exhaustive = False
     batch = 400
+    # failures of the capped finding stratum (F10c) must not use up the per-family failure record, or a
+    # defect that only shows in a later stratum (e.g. one storage dtype) would never be reported
+    known_findings_uncounted = True
     budget_share = 3.0
     case_timeout = 20.0
 
@@ -289,14 +451,111 @@ class StatFamily(Family):
     def cases(self, tier, rng):
         # finding stratum (plain, non-NaN-aware path with a NaN in the data, F10c) is capped
         nplain = 0
-        for case in self._cases(tier, rng):
-            sh, flat, sel, axis, fin, pos, stat, view, nmax = case
+        for case in self._all_cases(tier, rng):
+            sh, flat, sel, axis, fin, pos, stat, view, nmax = case[:9]
             if (not fin and not pos and "nan" in flat and
                     (sel is None or (sel[0] == "slice" and view is None))):
                 nplain += 1
                 if nplain > 200 or (nplain > 100 and nplain % 2):
-                    case = [sh, [0 if v == "nan" else v for v in flat], sel, axis, fin, pos, stat, view, nmax]
+                    case = [sh, [0 if v == "nan" else v for v in flat], sel, axis, fin, pos, stat, view, nmax] + case[9:]
             yield case
+
+    def _all_cases(self, tier, rng):
+        # the typed strata are interleaved with the float64 ones so that a family that is stopped on its
+        # deadline has still seen every stratum
+        a = self._cases(tier, rng)
+        b = self._typed_cases(tier, rng)
+        while True:
+            n = 0
+            for it, k in ((b, 200), (a, 600)):
+                for case in itertools.islice(it, k):
+                    n += 1
+                    yield case
+            if n == 0:
+                return
+
+    def _typed_cases(self, tier, rng):
+        """Components of every numeric storage dtype with values that stress the storage precision.
+        (C) exhaustive core: dtype x stress array x statistic x (axis x selection x view x chunking);
+        (D) seeded random beyond, incl. long reduction axes."""
+        quick = tier == "quick"
+        stats = STATS + [["percentile", 50], ["percentile", 25]] + ([] if quick else [["percentile", 90], ["percentile", qv(75, 2)]])
+        combos = [(True, False), (True, False), (False, False), (True, True), (False, True)]
+        shapes = [[5], [4, 2]] if quick else [[5], [4, 2], [2, 3], [2, 2, 3]]
+        cnt = 0
+        for dt in ALL_DT:
+            for si, sh in enumerate(shapes):
+                nd = len(sh)
+                size = int(np.prod(sh))
+                flat0 = typed_fixed(dt, sh, salt=si)
+                configs = []
+                for sel in typed_sels(dt, sh, flat0):
+                    for view in typed_views(sh):
+                        vnd = view_ndim(sh, view)
+                        for axis in axes_for(vnd):
+                            nmaxes = [BIG]
+                            if view is None and isinstance(axis, list) and len(axis) - 1 == nd - 1 and nd > 1 \
+                                    and not (sel is not None and sel[0] == "slice"):
+                                nmaxes = [1, max(1, size // 2), BIG]
+                            for nmax in nmaxes:
+                                configs.append((sel, view, axis, nmax))
+                for sti, stat in enumerate(stats):
+                    for ci, (sel, view, axis, nmax) in enumerate(configs):
+                        cnt += 1
+                        if quick and (ci + sti) % 4 and not (sel is None and view is None):
+                            continue      # quick: the statistic rotates over the configurations (2 of 7 each)
+                        fin, pos = combos[(cnt // 2) % len(combos)]
+                        flat = fix_stat_data(flat0, stat, fin)
+                        yield [sh, flat, sel, axis, fin, pos, stat, view, nmax, dt]
+        # (D) seeded random
+        nrand = 4000 if quick else 120000
+        for i in range(nrand):
+            dt = ALL_DT[i % len(ALL_DT)] if rng.random() < 0.5 else rng.choice(["f2", "f4", "f4", "i1", "i4", "i8", "u1", "f8"])
+            long_axis = rng.random() < (0.012 if quick else 0.004)
+            if long_axis:
+                ln = rng.choice([150, 300, 700] if quick else [300, 700, 1500, 2600])
+                sh = rng.choice([[ln], [ln, 2], [2, ln], [ln, 1, 2]])
+            else:
+                nd = rng.choice([1, 1, 2, 2, 3])
+                sh = [rng.randint(1, 5 if nd < 3 else 3) for _ in range(nd)]
+            nd = len(sh)
+            size = int(np.prod(sh))
+            flat = typed_random(rng, dt, size)
+            if long_axis and dt in ("i8", "u8"):
+                flat = [v if abs(v) < 2 ** 40 or k == 0 else 1 for k, v in enumerate(flat)]   # integer sums stay inside int64
+            thr = safe_thresholds(dt, flat)
+            r = rng.random()
+            if r < 0.3:
+                sel = None
+            elif r < 0.45:
+                sel = rand_slice_sel(rng, sh)
+            elif long_axis:
+                sel = rng.choice([["gt", 1], ["pixgt", 0, 10], ["le", thr[-1]]])
+            else:
+                sel = rand_sel(rng, sh, thr=thr)
+            view = None if long_axis and rng.random() < 0.6 else rand_view(rng, sh)
+            if sel is not None and sel[0] == "slice" and isinstance(view, list):
+                view = ["v"] + [["i", it[1] % h] if it[0] == "i" else it for it, h in zip(view[1:], sh)]
+            vnd = view_ndim(sh, view)
+            r = rng.random()
+            if r < 0.25:
+                axis = None
+            elif r < 0.5 and vnd > 0:
+                axis = rng.randrange(vnd)
+            elif r < 0.7 and vnd > 1 and view is None:
+                keep = rng.randrange(vnd)
+                axis = ["t"] + [a for a in range(vnd) if a != keep]
+            else:
+                axis = ["t"] + [a for a in range(vnd) if rng.random() < 0.6]
+            if nd > 1 and rng.random() < 0.2 and not (sel is not None and sel[0] == "slice"):
+                view, vnd = None, nd
+                keep = rng.randrange(nd)
+                axis = ["t"] + [a for a in range(nd) if a != keep]
+            stat = rng.choice(["sum", "sum", "mean", "mean"] + STATS + [["percentile", rng.choice([0, 10, 25, qv(75, 2), 50, 66, 90, 100])]])
+            fin, pos = rng.choice([(True, False), (True, False), (True, True), (False, False), (False, True)])
+            flat = fix_stat_data(flat, stat, fin)
+            nmax = rng.choice([BIG, BIG, 1, 2, 3, rng.randint(1, max(1, size)), max(1, size - 1)])
+            yield [sh, flat, sel, axis, fin, pos, stat, view, nmax, dt]
 
     def _cases(self, tier, rng):
         quick = tier == "quick"
@@ -332,7 +591,7 @@ class StatFamily(Family):
                             flat = fix_stat_data(flat0, stat, fin)
                             yield [sh, flat, sel, axis, fin, pos, stat, view, nmax]
         # (B) seeded random beyond
-        nrand = 9000 if quick else 250000
+        nrand = 7000 if quick else 250000
         maxdim = 3 if quick else 4
         for _ in range(nrand):
             nd = rng.choice([1, 2, 2, 3, 3, 4])
@@ -376,10 +635,10 @@ class StatFamily(Family):
 
     # ---- execution ---------------------------------------------------------------------
     def run_impl(self, case):
-        sh, flat, sel, axis, fin, pos, stat, view, nmax = case
+        sh, flat, sel, axis, fin, pos, stat, view, nmax = case[:9]
         gc.disable()
         try:
-            d = make_data(sh, flat)
+            d = make_data(sh, flat, dt=stat_dt(case))
             st = make_sel(d, sel)
             kw = {}
             if isinstance(stat, list):
@@ -395,11 +654,11 @@ class StatFamily(Family):
             gc.enable()
 
     def nontrivial(self, case, po):
-        sh, flat, sel, axis, fin, pos, stat, view, nmax = case
-        return isinstance(po, list) and (sel is not None or view is not None or nmax != BIG)
+        sh, flat, sel, axis, fin, pos, stat, view, nmax = case[:9]
+        return isinstance(po, list) and (sel is not None or view is not None or nmax != BIG or stat_dt(case) != "f8")
 
     def signature(self, case, po, res):
-        sh, flat, sel, axis, fin, pos, stat, view, nmax = case
+        sh, flat, sel, axis, fin, pos, stat, view, nmax = case[:9]
         vk = "none" if view is None else "ellipsis" if view == "E" else "tuple"
         return {"stat": stat if isinstance(stat, str) else "percentile",
                 "sel": "none" if sel is None else sel[0],
@@ -408,16 +667,24 @@ class StatFamily(Family):
                 "view_has_step": vk == "tuple" and any(it[0] == "s" and it[3] not in (None, 1) for it in view[1:]),
                 "axis": "none" if axis is None else "int" if isinstance(axis, int) else "tuple",
                 "py": po if isinstance(po, str) else (po[0] if po and po[0] == "py-exception" else "value"),
-                "construct": "plain-nan" if res.get("br") == "plain-nan" else "none",
+                "construct": "plain-nan" if str(res.get("br")).endswith("plain-nan") else "none",
+                "dtype": stat_dt(case),
                 "br": res.get("br")}
 
     def shrink(self, case):
-        sh, flat, sel, axis, fin, pos, stat, view, nmax = case
+        sh, flat, sel, axis, fin, pos, stat, view, nmax = case[:9]
+        tail = case[9:]
 
         def mk(**kw):
             c = dict(sh=sh, flat=flat, sel=sel, axis=axis, fin=fin, pos=pos, stat=stat, view=view, nmax=nmax)
             c.update(kw)
-            return [c["sh"], c["flat"], c["sel"], c["axis"], c["fin"], c["pos"], c["stat"], c["view"], c["nmax"]]
+            return [c["sh"], c["flat"], c["sel"], c["axis"], c["fin"], c["pos"], c["stat"], c["view"], c["nmax"]] + tail
+        # long arrays: halve the leading axis first (no selection / view that refers to positions)
+        if len(flat) > 24 and sel is None and view is None and sh[0] > 4:
+            h = sh[0] // 2
+            rest = len(flat) // sh[0]
+            yield mk(sh=[h] + sh[1:], flat=flat[:h * rest])
+            yield mk(sh=[sh[0] - h] + sh[1:], flat=flat[h * rest:])
         if nmax != BIG and not (view is None and isinstance(axis, list)):
             yield mk(nmax=BIG)
         if stat != "sum":
@@ -475,7 +742,7 @@ def fr(v):
 def has_interior_edge(case):
     """Generator-side stratification only (the verdict is the driver's): does some finite data value
     inside the range lie exactly on an interior bin edge?"""
-    sh, flat, w, sel, r0, r1, bins, log = case
+    sh, flat, w, sel, r0, r1, bins, log = case[:8]
     lo, hi = sorted((fr(r0), fr(r1)))
     if lo == hi or (log and lo <= 0):
         return False
@@ -493,10 +760,148 @@ def has_interior_edge(case):
     return False
 
 
+# typed histogram data: x = base + step*k (k = 0..5), ranges end half a step outside a data value and
+# the bin width is a whole number of steps, so no value is on or near a bin edge (clean stratum) while
+# neighbouring values fall into different bins — unless x is squeezed through a narrower format first.
+HX = {
+    "f2": [(2048, 2), (1000, 1), (-2058, 2)],
+    "f4": [(2 ** 24, 2), (2 ** 24 - 8, 1), (-(2 ** 24) - 10, 2)],
+    "f8": [(2 ** 24 + 1, 1), (2 ** 31 + 1, 1), (2 ** 40 + 1, 1), (-(2 ** 24) - 6, 1)],
+    "i1": [(100, 1), (-128, 1), (122, 1)],
+    "u1": [(250, 1), (0, 1)],
+    "i2": [(32762, 1), (2049, 1), (-32768, 1)],
+    "u2": [(65530, 1), (2049, 1)],
+    "i4": [(2 ** 24 + 1, 1), (2 ** 31 - 6, 1), (-2 ** 31, 1), (-(2 ** 24) - 6, 1)],
+    "u4": [(2 ** 32 - 6, 1), (2 ** 24 + 1, 1)],
+    "i8": [(2 ** 24 + 1, 1), (2 ** 31 + 1, 1), (2 ** 40 + 1, 1), (-(2 ** 31) - 6, 1)],
+    "u8": [(2 ** 24 + 1, 1), (2 ** 32 + 1, 1), (2 ** 40 + 1, 1)],
+    "b1": [(0, 1)],
+}
+# weights whose double-precision sums are exact in any order (so the bins are compared exactly), but
+# not their single / half precision sums
+HW = {
+    "f2": [2048, 1, 1, 3, qv(1, 2), 4096, 2, -1], "f4": [2 ** 24, 1, 1, 3, qv(1, 2), 2 ** 24 + 2, 2 ** 25, -1],
+    "f8": [2 ** 24 + 1, 1, 3, qv(1, 2), 2 ** 31 + 1, 2 ** 40 + 1, -1, qv(5, 4)],
+    "i1": [127, 127, 1, 100, -128, 2], "u1": [255, 255, 1, 200, 2], "i2": [32767, 32767, 1, 2049, -32768],
+    "u2": [65535, 65535, 1, 2049], "i4": [2 ** 31 - 1, 2 ** 24 + 1, 1, 3, -2 ** 31], "u4": [2 ** 32 - 1, 2 ** 24 + 1, 1, 3],
+    "i8": [2 ** 40 + 1, 2 ** 31 + 1, 2 ** 24 + 1, 1, -1], "u8": [2 ** 40 + 1, 2 ** 32 + 1, 2 ** 24 + 1, 1], "b1": [1, 0, 1],
+}
+
+
+def typed_hist_case(rng, xdt, wdt, base_step=None):
+    b, st = base_step if base_step is not None else rng.choice(HX[xdt])
+    kmax = 1 if xdt == "b1" else 5
+    sh = rng.choice([[rng.randint(1, 8)], [2, 3], [3, 2], [2, 2, 2]])
+    n = int(np.prod(sh))
+    flat = [b + st * rng.randint(0, kmax) for _ in range(n)]
+    if IS_FLOAT[xdt]:
+        flat = [rng.choice(["nan", "pinf", "ninf"]) if rng.random() < 0.1 else v for v in flat]
+    k0 = rng.randint(0, kmax)
+    k1 = rng.randint(k0, kmax)
+    width = k1 - k0 + 1
+    bins = rng.choice([m for m in range(1, 7) if width % m == 0])
+    r0 = qv(Fraction(b + st * k0) - Fraction(st, 2))
+    r1 = qv(Fraction(b + st * k1) + Fraction(st, 2))
+    if rng.random() < 0.15:
+        r0, r1 = r1, r0
+    w = None if wdt is None else [rng.choice(HW[wdt]) for _ in range(n)]
+    sel = None if rng.random() < 0.6 else rand_sel(rng, sh, thr=safe_thresholds(xdt, flat))
+    return [sh, flat, w, sel, r0, r1, bins, False, [xdt, wdt or "f8"]]
+
+
+# closed-range ends that coincide EXACTLY with data values, at magnitudes from 1e-12 to 1e15 (the
+# viewers' default range is the data minimum / maximum): the value on the upper end must be counted in
+# the last bin — in log space this depends on the 10-ulp pad being applied to log10(xmax), where an ulp
+# is up to 1e8 times coarser relative to xmax than an ulp of xmax itself.
+XMAG = [float("%ge%d" % (m, e)) for e in (-12, -9, -5, -2, 0, 2, 4, 6, 8, 10, 12, 15) for m in (1, 2, 3, 5, 7, 2.5)]
+XLIN = [(2459000.5, [0, qv(1, 4), qv(3, 2), 10, qv(1461, 4), 1000]), (1e15, [0, 2 ** 20, 3 * 2 ** 20, 2 ** 30, 5 * 2 ** 28 + 2 ** 19, 2 ** 40]),
+        (1e10, [0, qv(1, 2), 1000, 123456, 2 ** 24 + 1, 10 ** 9]), (-1e12, [0, 2 ** 10, 2 ** 20, 3 * 2 ** 19, 10 ** 9, 2 ** 36])]
+XW = [1, 2, 4, 8, 16, qv(1, 2), 3, qv(5, 4), 0, -1]
+
+
+def near_log_edge(case, guard=1e-9):
+    """generator-side stratification only: a kept value whose position in log space is within `guard`
+    bins of an interior edge without lying exactly on it (np.log10 rounding would decide its bin)"""
+    import math
+    sh, flat, w, sel, r0, r1, bins, log = case[:8]
+    lo, hi = sorted((fr(r0), fr(r1)))
+    if not log or lo <= 0 or lo == hi:
+        return False
+    for v in flat:
+        if is_special(v):
+            continue
+        x = fr(v)
+        if not (lo < x < hi):
+            continue
+        t = bins * (math.log(x) - math.log(lo)) / (math.log(hi) - math.log(lo))
+        k = round(t)
+        if 1 <= k <= bins - 1 and abs(t - k) < guard and (hi / lo) ** k != (x / lo) ** bins:
+            return True
+    return False
+
+
+def lin_clear_of_edges(case):
+    """generator-side replica of `Stats.histP` (linear bins): the 10-ulp pad of the upper end is small
+    against the range and no kept value lies within it above an interior edge (values exactly on an
+    interior edge are the F10 stratum and handled separately)"""
+    import math
+    sh, flat, w, sel, r0, r1, bins, log = case[:8]
+    lo, hi = sorted((fr(r0), fr(r1)))
+    if log or lo == hi:
+        return True
+    eps = 10 * Fraction(math.ulp(float(hi)))
+    if (bins - 1) * eps > hi - lo:
+        return False
+    for v in flat:
+        if is_special(v):
+            continue
+        x = fr(v)
+        if not (lo <= x < hi):
+            continue
+        k = ((x - lo) * bins / (hi - lo)).__floor__()
+        if lo + k * (hi + eps - lo) / bins > x:
+            return False
+    return True
+
+
+def extreme_hist_case(rng, log):
+    if log:
+        vals = [enc(v) for v in rng.sample(XMAG, rng.randint(2, 7))]
+    else:
+        base, offs = rng.choice(XLIN)
+        vals = [qv(Fraction(base) + Fraction(dec(o)) if not isinstance(o, list) else Fraction(base) + fr(o))
+                for o in rng.sample(offs, rng.randint(2, len(offs)))]
+    vals = vals + [rng.choice(vals) for _ in range(rng.randint(0, 3))]      # repeated end values
+    rng.shuffle(vals)
+    fin = sorted(vals, key=fr)
+    r = rng.random()
+    if r < 0.6:
+        r0, r1 = fin[0], fin[-1]                 # the viewer default: data minimum and maximum
+    else:
+        r0, r1 = sorted(rng.sample(vals, 2) if len(vals) > 1 else vals * 2, key=fr)
+    if rng.random() < 0.25:
+        r0, r1 = r1, r0
+    flat = list(vals)
+    if rng.random() < 0.3:
+        flat.insert(rng.randrange(len(flat) + 1), rng.choice(["nan", "pinf", "ninf"]))
+    sh = [len(flat)]
+    if len(flat) in (4, 6, 8) and rng.random() < 0.3:
+        sh = [2, len(flat) // 2]
+    w = None if rng.random() < 0.55 else [rng.choice(XW) for _ in flat]
+    sel = None if rng.random() < 0.7 else rng.choice([["pixgt", 0, 0], ["bits"] + [rng.random() < 0.8 for _ in flat],
+                                                      ["ge", fin[len(fin) // 2]], ["le", fin[-1]]])
+    return [sh, flat, w, sel, r0, r1, rng.randint(1, 6), log]
+
+
+def hist_dts(case):
+    return case[8] if len(case) > 8 else ["f8", "f8"]
+
+
 class HistFamily(Family):
     name = "hist"
     exhaustive = False
     batch = 500
+    known_findings_uncounted = True      # F10 stratum (see StatFamily)
     budget_share = 1.5
 
     def cases(self, tier, rng):
@@ -511,6 +916,57 @@ class HistFamily(Family):
             yield case
 
     def _cases(self, tier, rng):
+        a = self._cases_f8(tier, rng)
+        b = self._typed_cases(tier, rng)
+        c = self._extreme_cases(tier, rng)
+        while True:
+            n = 0
+            for it, k in ((c, 100), (b, 100), (a, 500)):
+                for case in itertools.islice(it, k):
+                    n += 1
+                    yield case
+            if n == 0:
+                return
+
+    def _extreme_cases(self, tier, rng):
+        """range ends exactly on data values at magnitudes 1e-12 .. 1e15 (log space), and linear
+        histograms at large magnitudes (2459000.5, 1e10, 1e15, -1e12); reversed ranges, weights,
+        selections.  Values that np.log10 rounding (log) or the 10-ulp pad (linear) would move across an
+        interior edge without lying on it are left out; values exactly on one are the capped F10 stratum."""
+        quick = tier == "quick"
+        # fixed: the shapes of the viewers' default ranges
+        fixed = [([1e2, 3e4, 5e6, 7e8, 1e10], 4), ([1., 2e3, 5e6, 7e9, 1e12, 1e12], 4), ([5., 3e15, 2e7, 3e15], 3),
+                 ([1e-12, 3e-9, 2e-5, 7e-2], 3), ([2.5e-12, 1e15], 5), ([7e8, 7e8], 1), ([3e-9, 5e6, 1e15, 1e15, 1e15], 6),
+                 ([2e-12, 5e-12, 7e-12], 2), ([1e8, 3e8, 1e9], 2), ([1e-8, 3e-8, 1e-7], 2)]
+        for vals, bins in fixed:
+            flat = [enc(v) for v in vals]
+            lo, hi = enc(min(vals)), enc(max(vals))
+            for (r0, r1) in ((lo, hi), (hi, lo)):
+                for w in (None, [XW[i % 5] for i in range(len(flat))]):
+                    for log in (True, False):
+                        for b in sorted({bins, 1, 2}):
+                            case = [[len(flat)], flat, w, None, r0, r1, b, log]
+                            if not near_log_edge(case) and (has_interior_edge(case) or lin_clear_of_edges(case)):
+                                yield case
+        for _ in range(1500 if quick else 30000):
+            case = extreme_hist_case(rng, rng.random() < 0.75)
+            if crashes_fast_histogram(case[4], case[5], case[7]) or near_log_edge(case):
+                continue
+            if not has_interior_edge(case) and not lin_clear_of_edges(case):
+                continue
+            yield case
+
+    def _typed_cases(self, tier, rng):
+        """every storage dtype for the attribute and for the weights (clean stratum: no value on or near an edge)"""
+        quick = tier == "quick"
+        per = 4 if quick else 40
+        for xdt in ALL_DT:
+            for bs in HX[xdt]:
+                for j, wdt in enumerate([None] + ALL_DT):
+                    for _ in range(per if wdt is None else max(1, per // 3)):
+                        yield typed_hist_case(rng, xdt, wdt, bs)
+
+    def _cases_f8(self, tier, rng):
         quick = tier == "quick"
         # (A) structured: fixed arrays, every bin count 1..6, ranges incl. reversed, zero-width, ends on data values
         arrays = [
@@ -558,17 +1014,18 @@ class HistFamily(Family):
             yield [sh, flat, w, sel, r0, r1, rng.randint(1, 6), log]
 
     def run_impl(self, case):
-        sh, flat, w, sel, r0, r1, bins, log = case
+        sh, flat, w, sel, r0, r1, bins, log = case[:8]
+        xdt, wdt = hist_dts(case)
         gc.disable()
         try:
-            d = make_data(sh, flat, w)
+            d = make_data(sh, flat, w, dt=xdt, wdt=wdt)
             st = make_sel(d, sel)
             try:
                 h = d.compute_histogram([d.id["x"]], weights=None if w is None else d.id["w"],
                                         range=[(dec(r0), dec(r1))], bins=[bins], log=[log], subset_state=st)
             except ValueError:
                 return "value-error"
-            out = [enc(v) for v in np.asarray(h, dtype=float).ravel()]
+            out = [enc_exact(v) for v in np.asarray(h).ravel().tolist()]
             del st, d
             return out
         finally:
@@ -581,25 +1038,27 @@ class HistFamily(Family):
         br = res.get("br") or ""
         return {"construct": "interior-edge" if str(br).endswith("-edge") else "none",
                 "tot": res.get("tot"), "adm": res.get("adm"), "log": bool(case[7]),
-                "weights": case[2] is not None}
+                "weights": case[2] is not None, "dtypes": "/".join(hist_dts(case))}
 
     def shrink(self, case):
-        sh, flat, w, sel, r0, r1, bins, log = case
+        sh, flat, w, sel, r0, r1, bins, log = case[:8]
+        t = case[8:]
         if sel is not None:
-            yield [sh, flat, w, None, r0, r1, bins, log]
+            yield [sh, flat, w, None, r0, r1, bins, log] + t
         if w is not None:
-            yield [sh, flat, None, sel, r0, r1, bins, log]
+            yield [sh, flat, None, sel, r0, r1, bins, log] + t
         if len(sh) > 1:
-            yield [[len(flat)], flat, w, None if sel is not None else sel, r0, r1, bins, log]
+            yield [[len(flat)], flat, w, None if sel is not None else sel, r0, r1, bins, log] + t
         if len(sh) == 1 and len(flat) > 1 and sel is None:
             for i in range(len(flat)):
                 f2 = flat[:i] + flat[i + 1:]
                 w2 = None if w is None else w[:i] + w[i + 1:]
-                yield [[len(f2)], f2, w2, sel, r0, r1, bins, log]
+                yield [[len(f2)], f2, w2, sel, r0, r1, bins, log] + t
         if dec(r0) > dec(r1):
-            yield [sh, flat, w, sel, r1, r0, bins, log]
-        for b in range(1, bins):
-            yield [sh, flat, w, sel, r0, r1, b, log]
+            yield [sh, flat, w, sel, r1, r0, bins, log] + t
+        if not t:
+            for b in range(1, bins):
+                yield [sh, flat, w, sel, r0, r1, b, log]
 
 
 # ------------------------------------------------------------------------------------------
@@ -625,23 +1084,30 @@ class ProfFamily(Family):
                 for xa in range(len(sh)):
                     cnt += 1
                     yield [sh, flat, sel, xa, funcs[cnt % 5]]
-        for _ in range(500 if quick else 8000):
+        for i in range(500 if quick else 8000):
             nd = rng.choice([1, 2, 3, 3])
             sh = [rng.randint(1, 3) for _ in range(nd)]
             flat = [rand_value(rng, rng.choice([0.0, 0.2])) for _ in range(int(np.prod(sh)))]
             sel = None if rng.random() < 0.3 else rand_sel(rng, sh)
             yield [sh, flat, sel, rng.randrange(nd), rng.choice(funcs)]
+            if i % 2 == 0:
+                # the same through a component of another storage dtype, precision-stressing values
+                dt = ALL_DT[(i // 2) % len(ALL_DT)]
+                sh = [rng.randint(1, 4) for _ in range(nd)]
+                flat = typed_random(rng, dt, int(np.prod(sh)))
+                sel = None if rng.random() < 0.4 else rand_sel(rng, sh, thr=safe_thresholds(dt, flat))
+                yield [sh, flat, sel, rng.randrange(nd), rng.choice(funcs + ["sum", "mean"]), dt]
 
     def _stat_case(self, case):
-        sh, flat, sel, xa, func = case
-        return [sh, flat, sel, ["t"] + [a for a in range(len(sh)) if a != xa], True, False, func, None, BIG]
+        sh, flat, sel, xa, func = case[:5]
+        return [sh, flat, sel, ["t"] + [a for a in range(len(sh)) if a != xa], True, False, func, None, BIG] + case[5:]
 
     def run_impl(self, case):
         from glue.viewers.profile.state import ProfileViewerState, ProfileLayerState
-        sh, flat, sel, xa, func = case
+        sh, flat, sel, xa, func = case[:5]
         gc.disable()
         try:
-            d = make_data(sh, flat)
+            d = make_data(sh, flat, dt=case[5] if len(case) > 5 else "f8")
             vs = ProfileViewerState()
             ls = ProfileLayerState(viewer_state=vs, layer=d)
             vs.layers.append(ls)
@@ -675,14 +1141,14 @@ class ProfFamily(Family):
         return isinstance(po, list) and case[2] is not None
 
     def signature(self, case, po, res):
-        return {"construct": "plain-nan" if res.get("br") == "plain-nan" else "none", "br": res.get("br")}
+        return {"construct": "plain-nan" if str(res.get("br")).endswith("plain-nan") else "none", "br": res.get("br")}
 
     def shrink(self, case):
-        sh, flat, sel, xa, func = case
+        sh, flat, sel, xa, func = case[:5]
         if sel is not None:
-            yield [sh, flat, None, xa, func]
+            yield [sh, flat, None, xa, func] + case[5:]
         if func != "sum":
-            yield [sh, flat, sel, xa, "sum"]
+            yield [sh, flat, sel, xa, "sum"] + case[5:]
 
 
 class HistStateFamily(Family):
@@ -714,13 +1180,23 @@ class HistStateFamily(Family):
                 continue
             n += 1
             yield case
+            if n % 3 == 0:
+                c2 = typed_hist_case(rng, ALL_DT[(n // 3) % len(ALL_DT)], None)
+                if dec(c2[4]) != dec(c2[5]):
+                    yield c2
+            if n % 3 == 1:
+                # the layer's histogram over limits that sit exactly on data values at extreme magnitudes
+                c3 = extreme_hist_case(rng, rng.random() < 0.75)
+                c3[2] = None
+                if dec(c3[4]) != dec(c3[5]) and not has_interior_edge(c3) and not near_log_edge(c3) and lin_clear_of_edges(c3):
+                    yield c3
 
     def run_impl(self, case):
         from glue.viewers.histogram.state import HistogramViewerState, HistogramLayerState
-        sh, flat, w, sel, r0, r1, bins, log = case
+        sh, flat, w, sel, r0, r1, bins, log = case[:8]
         gc.disable()
         try:
-            d = make_data(sh, flat)
+            d = make_data(sh, flat, dt=hist_dts(case)[0])
             vs = HistogramViewerState()
             ls = HistogramLayerState(viewer_state=vs, layer=d)
             vs.layers.append(ls)
@@ -740,7 +1216,7 @@ class HistStateFamily(Family):
             vs.hist_x_max = dec(r1)
             edges, h = ls.histogram
             assert len(edges) == bins + 1
-            out = [enc(v) for v in np.asarray(h, dtype=float).ravel()]
+            out = [enc_exact(v) for v in np.asarray(h).ravel().tolist()]
             del keep
             return out
         finally:
@@ -757,23 +1233,130 @@ class HistStateFamily(Family):
         return {"tot": res.get("tot"), "adm": res.get("adm"), "br": res.get("br")}
 
 
+class Hist2Family(Family):
+    """Data.compute_histogram with two attributes (the 2-d path: histogram2d, second padded upper end).
+    Clean stratum only: on neither axis does a value lie on / near an interior edge; range ends sit
+    exactly on data values (the default), linear and log axes at magnitudes 1e-12 .. 1e15."""
+    name = "hist2"
+    exhaustive = False
+    batch = 200
+    budget_share = 0.4
+
+    @staticmethod
+    def _axis(rng, n):
+        """values (length n), range and bin count of one axis, clean in the 1-d sense"""
+        for _ in range(40):
+            r = rng.random()
+            if r < 0.45:
+                log = True
+                pool = [enc(v) for v in rng.sample(XMAG, min(len(XMAG), rng.randint(2, 5)))]
+            elif r < 0.65:
+                log = False
+                base, offs = rng.choice(XLIN)
+                pool = [qv(Fraction(base) + fr(o)) for o in rng.sample(offs, rng.randint(2, len(offs)))]
+            else:
+                log = rng.random() < 0.4
+                pool = rng.sample(LOGPOOL if log else HPOOL, rng.randint(2, 5))
+            vals = [rng.choice(pool) for _ in range(n)]
+            fin = sorted(set(map(fr, vals)))
+            if len(fin) < 2:
+                continue
+            if rng.random() < 0.7:
+                r0, r1 = qv(fin[0]), qv(fin[-1])
+            else:
+                a, b = sorted(rng.sample(fin, 2))
+                r0, r1 = qv(a), qv(b)
+            if rng.random() < 0.2:
+                r0, r1 = r1, r0
+            if rng.random() < 0.2:
+                vals[rng.randrange(n)] = rng.choice(["nan", "pinf", "ninf"])
+            bins = rng.randint(1, 4)
+            probe = [[n], vals, None, None, r0, r1, bins, log]
+            if has_interior_edge(probe) or near_log_edge(probe) or not lin_clear_of_edges(probe):
+                continue
+            return vals, r0, r1, bins, log
+        return [1, 2, 4][:n] + [1] * (n - 3), 1, 4, 1, False
+
+    def cases(self, tier, rng):
+        quick = tier == "quick"
+        # the seeded shape: linear x, log y with the upper end on a data value at 1e12
+        yield [[4], [0, 1, 2, 3], [1000, 200000, 700000000, 10 ** 12], None, None, 0, 3, 1000, 10 ** 12, 2, 3, False, True]
+        yield [[4], [1000, 200000, 700000000, 10 ** 12], [0, 1, 2, 3], [1, 2, 4, 8], None, 10 ** 12, 1000, 0, 3, 3, 2, True, False]
+        for _ in range(600 if quick else 12000):
+            sh = rng.choice([[rng.randint(2, 7)], [2, 3], [2, 2]])
+            n = int(np.prod(sh))
+            xv, rx0, rx1, bx, lx = self._axis(rng, n)
+            yv, ry0, ry1, by, ly = self._axis(rng, n)
+            w = None if rng.random() < 0.6 else [rng.choice(XW) for _ in range(n)]
+            sel = None if rng.random() < 0.7 else rng.choice([["pixgt", 0, 0], ["bits"] + [rng.random() < 0.7 for _ in range(n)]])
+            yield [sh, xv, yv, w, sel, rx0, rx1, ry0, ry1, bx, by, lx, ly]
+
+    def run_impl(self, case):
+        sh, xv, yv, w, sel, rx0, rx1, ry0, ry1, bx, by, lx, ly = case
+        gc.disable()
+        try:
+            d = make_data(sh, xv, w, yflat=yv)
+            st = make_sel(d, sel)
+            h = d.compute_histogram([d.id["x"], d.id["y"]], weights=None if w is None else d.id["w"],
+                                    range=[(dec(rx0), dec(rx1)), (dec(ry0), dec(ry1))], bins=[bx, by],
+                                    log=[lx, ly], subset_state=st)
+            h = np.asarray(h)
+            assert h.shape == (bx, by), h.shape
+            out = [enc_exact(v) for v in h.ravel().tolist()]
+            del st, d
+            return out
+        finally:
+            gc.enable()
+
+    def nontrivial(self, case, po):
+        return isinstance(po, list) and any(v != "0" for v in po)
+
+    def signature(self, case, po, res):
+        return {"tot": res.get("tot"), "bin": res.get("bin"), "br": res.get("br")}
+
+    def shrink(self, case):
+        sh, xv, yv, w, sel, rx0, rx1, ry0, ry1, bx, by, lx, ly = case
+        if sel is not None:
+            yield [sh, xv, yv, w, None, rx0, rx1, ry0, ry1, bx, by, lx, ly]
+        if w is not None:
+            yield [sh, xv, yv, None, sel, rx0, rx1, ry0, ry1, bx, by, lx, ly]
+        if sel is None and len(xv) > 1:
+            for i in range(len(xv)):
+                yield [[len(xv) - 1], xv[:i] + xv[i + 1:], yv[:i] + yv[i + 1:], None if w is None else w[:i] + w[i + 1:],
+                       None, rx0, rx1, ry0, ry1, bx, by, lx, ly]
+        if bx > 1:
+            yield [sh, xv, yv, w, sel, rx0, rx1, ry0, ry1, 1, by, lx, ly]
+        if by > 1:
+            yield [sh, xv, yv, w, sel, rx0, rx1, ry0, ry1, bx, 1, lx, ly]
+
+
 PROP = Property(
     id="C10",
     title="Statistics and histograms equal their definition regardless of chunking or views",
     theorems=["C10.stat_bbox_eq", "C10.stat_bbox_shape", "C10.stat_chunked_eq", "C10.stat_chunked_shape",
               "C10.stat_slice_shortcut_eq", "C10.stat_refines_spec_partial", "C10.stat_shape", "C10.F10c_witness",
               "C10.reduce_partition_min", "C10.reduce_partition_max", "C10.reduce_partition_sum",
+              "C10.spec_dtype_independent", "C10.spec_cell_reduce", "C10.accept_exact", "C10.stat_accepted_partial",
+              "C10.accept_witness",
               "C10.hist_total", "C10.hist_bin", "C10.hist_bin_top", "C10.hist_perbin_partial", "C10.F10_witness"],
-    families=[StatFamily(), HistFamily(), ProfFamily(), HistStateFamily()],
-    trusted_base=["numpy reducers (nanmin/nanmax/nansum/nanmean/nanmedian/nanpercentile and the plain ones), "
-                  "fast_histogram.histogram1d and IEEE double arithmetic are assumed to agree with exact "
-                  "arithmetic on the generated exactly-representable data (sum/min/max compared exactly, "
-                  "mean/median/percentile within rel. tol. 1e-12 checked by the Lean driver)",
+    families=[StatFamily(), HistFamily(), ProfFamily(), HistStateFamily(), Hist2Family()],
+    trusted_base=["numpy reducers (nanmin/nanmax/nansum/nanmean/nanmedian/nanpercentile and the plain ones) carried out "
+                  "in IEEE double precision are assumed to stay within the standard forward error bounds that "
+                  "Stats.specAccept computes exactly from the kept values of each cell (exact when every partial sum is "
+                  "a double; correctly rounded for min/max/odd median; n*2^-52*sum|x| for sums, (n+1)*2^-52*sum|x|/n for "
+                  "means, (4n+8)*2^-52*max|x| for percentiles); fast_histogram.histogram1d is assumed to agree with exact "
+                  "arithmetic on the generated data (bins compared exactly; weights have exact double sums)",
                   "subset_state.to_mask(data, view) == full mask[view] (property C04) — the model evaluates "
                   "the selection to its full-shape mask"],
-    assumptions=["data values are small dyadic rationals, NaN or ±inf; zero-size views and zero-width histogram "
+    assumptions=["data values are exactly representable in the component's storage dtype (float16/32/64, int8..64, "
+                 "uint8..64, bool; re-checked by the driver: DType.holds), NaN or ±inf for the float dtypes; exact results "
+                 "stay inside the double range and integer sums inside int64; comparison constants of inequality "
+                 "selections are representable in the dtype; zero-size views and zero-width histogram "
                  "ranges at 0 (fast_histogram crashes) are outside the generated domain"],
     rule="exhaustive small scope (3 shapes x 12 selection kinds x all axis subsets x all views from a per-axis item "
          "set x chunk limits, statistic/filter rotating) plus seeded random beyond (shapes <=4-d, dims <=3/4); "
+         "typed strata: 12 storage dtypes x precision-stressing arrays x statistic x (selection x view x axis x chunking) "
+         "core plus seeded random incl. long reduction axes, typed histogram attribute x weights dtypes; histogram ranges "
+         "ending exactly on data values at magnitudes 1e-12..1e15 (log) and large linear magnitudes; 2-d histograms (clean stratum); "
          "non-trivial = a selection, a view or a chunk limit is present / histogram has a non-zero bin",
 )
